@@ -194,6 +194,29 @@ def expectedTable (env : Env) (pfx : Str) (cat : List Instance) (lines : List St
   let tbl := cat.flatMap (buildSimple pfx)
   newTable env (lines.filterMap (fun l => tbl.lookup l) ++ kv)
 
+/-- (service, url) of every target of a table dump -/
+def tableTargets (t : Json) : List (Str × Str) :=
+  let arr (j : Json) : List Json := match j with | .arr a => a.toList | _ => []
+  (arr t).flatMap (fun h => (arr (field h "routes")).flatMap (fun r => (arr (field r "targets")).map (fun g =>
+    (getStrD g "service", getStrD g "url"))))
+
+/-- **Soundness at an observation point** (a sync point of the history: the watchers have seen the registry state
+`reg` and the table loop has processed what they sent — with or without failing catalog lookups on the way): every
+target of the installed table is either the target of a routing tag of an instance that advertises it and is
+`HealthyAt` in that state, or the target of an operator `route add` of the KV content of that state. Returns the
+offending targets. -/
+def unsoundTargets (pfx : Str) (st : List Str) (strict : Bool) (o : Json) : Except String (List (Str × Str)) := do
+  let reg := field o "registry"
+  let checks ← arrOf checkOf (field reg "checks")
+  let cat ← arrOf instOf (field reg "catalog")
+  let kv ← arrOf routeDef (field reg "kv")
+  let env := envOf (field o "oracle")
+  let norm (d : Str) : Str := (env.normURL d).getD d
+  let healthy := cat.filter (routedSpec checks st strict)
+  let allowedSvc := healthy.flatMap (fun i => (buildSimple pfx i).map (fun ld => (ld.2.service, norm ld.2.dst)))
+  let allowedKV := (kv.filter (fun d => d.cmd == Cmd.add)).map (fun d => (d.service, norm d.dst))
+  return (tableTargets (field o "table")).filter (fun t => !(allowedSvc.contains t || allowedKV.contains t))
+
 /-- `strconv.ParseFloat` as shipped by the harness: `{"pf": {token: "num/den" | "inf" | "-inf" | "nan" | null}}` -/
 def pfOf (o : Json) : Fabio.Model.Parse.ParseFloat :=
   let p := (o.getObjVal? "pf").toOption.getD (Json.mkObj [])
@@ -231,7 +254,18 @@ def pipelineH : Handler := fun inp impl => do
   let routed := adv.filter (routedSpec checks st strict)
   let sLines := sortDesc (routed.flatMap (linesOf pfx))
   let ps := pairsOf (checks.filter isServiceCheck) cat
-  let feature := (if kv.isEmpty then "nokv" else "kv") ++ (if strict then "-strict" else "-one")
+  let faults := (impl.getObjValAs? Nat "faults").toOption.getD 0
+  let jumps := (impl.getObjValAs? Nat "jumps").toOption.getD 0
+  let feature := (if kv.isEmpty then "nokv" else "kv") ++ (if strict then "-strict" else "-one") ++
+    (if faults > 0 then "-faults" else "") ++ (if jumps > 0 then "-indexjump" else "")
+  -- soundness at every observation point of the history (sync points; under faults too)
+  let obs := match field impl "obs" with | .arr a => a.toList | _ => []
+  let bad ← obs.mapM (unsoundTargets pfx st strict)
+  let obsSound := bad.all (·.isEmpty)
+  if !obsSound then
+    return ({ model := Json.arr ((bad.flatMap id).map (fun t => Json.arr #[str t.1, str t.2])).toArray,
+              agree := true, spec := false, nontrivial := true,
+              tag := "unhealthy-target-after-observation" } : Verdict).toJson
   match composed, expectedTable env pfx cat sLines kv with
   | .ok mt, .ok stb =>
     let mj := tableJson mt
